@@ -195,6 +195,12 @@ func Run(r *core.Run) {
 					m2["x"], m2["y"] = xs[:len(xs)-n], xs[len(xs)-n:]+ys
 					muts = append(muts, mj{fmt.Sprintf("%s/boundary-moved-left-%d", base, n), m2, k})
 				}
+				// the same 2w bytes split at another place: x one to three bytes short and y as much too long, and the other way round
+				for _, n := range []int{1, 2, 3} {
+					xy := append(append([]byte{}, x...), y...)
+					mk(fmt.Sprintf("bytes-split-%d-early", n), xy[:len(x)-n], xy[len(x)-n:])
+					mk(fmt.Sprintf("bytes-split-%d-late", n), xy[:len(x)+n], xy[len(x)+n:])
+				}
 				mk("swapped", y, x)
 				mk("zero-point", make([]byte, w), make([]byte, w))
 				ny := new(big.Int).Sub(keys.Curve(t).Params().P, new(big.Int).SetBytes(y)).Bytes()
